@@ -65,7 +65,7 @@ CHECKS = {
           "stop() pushes the default (UINT64_MAX) marker before join under joinable(), the destructor stops, retire stamps a fresh tick, "
           "and the queue flag pairing / single-consumer precondition of the non-concurrent pop. The tests only stop an already idle "
           "collector, so the batch-shared-with-marker path is never staged. Which regions are open (Epoch) is C09; schedule-level exactly-once is not decided. Also: every popped task that is not the stop marker is appended to the batch (R3g). The queue re-size clause C01.R11 is evaluated on this component's queue instantiation (Q1)."
-          " Dependent clauses: the rules of the lower components (C01, C02, C09) are re-evaluated on the function instances this component's own code reaches through resolved calls and reported as '<id>.D:<lower rule>' (DESIGN.md section 3, D1).",
+          " Dependent clauses: the rules of the lower components (C01, C02, C09) are re-evaluated on the function instances this component's own code reaches through resolved calls (or, where the lower object is shared with this component's clients, on every instance present) and reported as '<id>.D:<lower rule>' (DESIGN.md section 3, D1).",
   "note": "Trusted: clang 14 CFG; std::thread/std::vector are opaque; the bounded queue (C01/C02) delivers what was pushed.",
   "technique": "static analysis: must-pass-through (typestate of the task buffer), edge-guard and counting rules over CFG facts; who-may-call pairing"},
  "C09": {
@@ -76,7 +76,7 @@ CHECKS = {
           "release-stores UINT64_MAX only on the outermost exit with a balanced nesting counter; Accessor is move-only, swaps both "
           "fields and unregisters at most once. A weakened fence or order never shows in sequentially consistent test interleavings on "
           "x86. The sufficiency of these orders (the Dekker argument) and the non-x86 branch of tick() are not decided. Also: the scan bound is the instance's own accessor count whenever non-zero; the process-wide thread count is used only on the ==0 edge (R3e). Also: lock/unlock work on the caller's own slot, which lock ensures first; create_accessor ensures the slot it hands out (R6). Also: every write of the scan callback to the captured result folds (the callback runs once per block) (R3f)."
-          " Dependent clauses: the rules of the lower components (C04, C14) are re-evaluated on the function instances this component's own code reaches through resolved calls and reported as '<id>.D:<lower rule>' (DESIGN.md section 3, D1).",
+          " Dependent clauses: the rules of the lower components (C04, C14) are re-evaluated on the function instances this component's own code reaches through resolved calls (or, where the lower object is shared with this component's clients, on every instance present) and reported as '<id>.D:<lower rule>' (DESIGN.md section 3, D1).",
   "note": "Trusted: C++ memory model reasoning about seq_cst fences; host preprocessor branch (#if __x86_64__) only.",
   "technique": "static analysis: memory-order, fence post-dominance, edge-guard and provenance rules over CFG facts"},
  "C14": {
@@ -89,7 +89,7 @@ CHECKS = {
           "from holders of a successful take, Accessor moves keep one finisher; a thread id is allocated in the constructor and the same "
           "value returned in the destructor. An ABA or stale-version match needs a precise three-thread interleaving and is silent. "
           "Uniqueness over all interleavings is not decided. Also: IdAllocator::for_each closes a reported run, flushes the trailing run, finds run boundaries with ACTIVE_FLAG and advances pointer and id together (R6). Also: value, bound and live-id enumeration of one thread-id flavour use the same allocator instance (R5c)."
-          " The thread-id destructor returns its value on every live path of every flavour (R5b; the dead arm of an if on a template flag is not a path). Dependent clauses: the rules of the lower components (C04) are re-evaluated on the function instances this component's own code reaches through resolved calls and reported as '<id>.D:<lower rule>' (DESIGN.md section 3, D1).",
+          " The thread-id destructor returns its value on every live path of every flavour (R5b; the dead arm of an if on a template flag is not a path). Dependent clauses: the rules of the lower components (C04) are re-evaluated on the function instances this component's own code reaches through resolved calls (or, where the lower object is shared with this component's clients, on every instance present) and reported as '<id>.D:<lower rule>' (DESIGN.md section 3, D1).",
   "note": "Trusted: clang 14 CFG; 64-bit lock-free atomics on VersionedValue (asserted by the platform, not by this check).",
   "technique": "static analysis: provenance (desired value derives from observed value + constant), edge-guard, dominance and memory-order rules over CFG facts"},
  "C13": {
@@ -101,7 +101,8 @@ CHECKS = {
           "test run under the futex mutex, final_suspend / Task::await_suspend / the future awaitable continue exactly one party on every "
           "path, and the inline fallback resume happens exactly when the executor refused. The tests drive coroutines from one thread and "
           "never reuse a node that wake_all is still walking. Schedule-level exactly-once and run-time executor identity are not decided."
-          " Dependent clauses: the rules of the lower components (C08, C14) are re-evaluated on the function instances this component's own code reaches through resolved calls and reported as '<id>.D:<lower rule>' (DESIGN.md section 3, D1).",
+          " Dependent clauses: the rules of the lower components (C08, C14) are re-evaluated on the function instances this component's own code reaches through resolved calls (or, where the lower object is shared with this component's clients, on every instance present) and reported as '<id>.D:<lower rule>' (DESIGN.md section 3, D1)."
+          ' Also: remove_awaiter repairs both links around the cancelled node (R4d).',
   "note": "Trusted: clang 14 CFG; compiler-generated coroutine frames (coroutine bodies themselves are not analysed, only the awaiter/promise protocol functions).",
   "technique": "static analysis: use-after-release, resource-flow, exactly-once path counting, lock-dominance and null-correlated edge-guard rules over CFG facts"},
  "C03": {
@@ -123,7 +124,7 @@ CHECKS = {
           "and fixed); rebuild paths iterate through begin()/end() and size the target from size(); user-provided move/swap members "
           "transfer every field. None of the unit tests iterates, copies or reserves a set that grew from the default state. Equality "
           "with std::unordered_set over histories is not decided. Also: a table iterator is compared only with the end() of the table it came from (R8). Also: total_size counts the table whose successor it has just examined (R2c)."
-          " Dependent clauses: the rules of the lower components (C03) are re-evaluated on the function instances this component's own code reaches through resolved calls and reported as '<id>.D:<lower rule>' (DESIGN.md section 3, D1).",
+          " Dependent clauses: the rules of the lower components (C03) are re-evaluated on the function instances this component's own code reaches through resolved calls (or, where the lower object is shared with this component's clients, on every instance present) and reported as '<id>.D:<lower rule>' (DESIGN.md section 3, D1).",
   "note": "Trusted: clang 14 CFG; the fixed table's own iteration (find_first_non_empty) is not analysed.",
   "technique": "static analysis: traversal-progress, flow-sensitive provenance, special-member completeness and who-sizes-from-what rules over CFG facts"},
  "C06": {
@@ -136,7 +137,7 @@ CHECKS = {
           "replayed and fixed); constant indices agree with the capacity of the in-page arrays. A block returned with the wrong size, twice "
           "or never is visible only with an instrumented allocator over long histories. Block disjointness / alignment arithmetic / overlap "
           "with in-page bookkeeping are numeric and explicitly not decided. Also: when a move member exchanges the block bookkeeping, the allocators release() hands blocks back to are exchanged with it (R4b). Also: release() does not read a bookkeeping array again after a block of its own group went back while the chain head still names it (R2h). Also: EnumerableThreadLocal<ExclusiveMonotonicBufferResource> moves its cache key with its storage (R4c)."
-          " Dependent clauses: the rules of the lower components (C04, C14, C19) are re-evaluated on the function instances this component's own code reaches through resolved calls and reported as '<id>.D:<lower rule>' (DESIGN.md section 3, D1).",
+          " Dependent clauses: the rules of the lower components (C04, C14, C19) are re-evaluated on the function instances this component's own code reaches through resolved calls (or, where the lower object is shared with this component's clients, on every instance present) and reported as '<id>.D:<lower rule>' (DESIGN.md section 3, D1).",
   "note": "Trusted: clang 14 CFG; PageAllocator and std::pmr upstream are opaque; SanitizerHelper calls are value-transparent helpers.",
   "technique": "static analysis: resource-flow (acquire -> register on all paths), expression agreement with reaching definitions, ordering/dominance, "
                "special-member completeness and constant/capacity agreement over CFG facts"},
@@ -150,7 +151,7 @@ CHECKS = {
           "Deleter moves transfer the pool pointer. The compensating paths run only when the cache is exactly full/empty under "
           "contention, and a duplicated page is silent corruption. Exact conservation inside the pointer-arithmetic callbacks under "
           "interleavings is not decided. The queue re-size clause C01.R11 is evaluated on this component's queue instantiations (Q1)."
-          " Dependent clauses: the rules of the lower components (C01, C02) are re-evaluated on the function instances this component's own code reaches through resolved calls and reported as '<id>.D:<lower rule>' (DESIGN.md section 3, D1).",
+          " Dependent clauses: the rules of the lower components (C01, C02) are re-evaluated on the function instances this component's own code reaches through resolved calls (or, where the lower object is shared with this component's clients, on every instance present) and reported as '<id>.D:<lower rule>' (DESIGN.md section 3, D1).",
   "note": "Trusted: clang 14 CFG; the bounded queue's compensating batch operations (C01) deliver each slot to exactly one callback.",
   "technique": "static analysis: role/sibling agreement of callbacks (resolved callees in lambda bodies), fall-off-end CFG rule, exactly-once counting, who-may-call pairing"},
  "C07": {
@@ -162,7 +163,8 @@ CHECKS = {
           "sleeping global pop is woken by every global push and the non-atomic local push is reachable only behind is_running_in() "
           "through the thread-local queue. A dropped task shows only as a future that never becomes ready. That an accepted task runs "
           "under every interleaving with steal/balance is not decided. Also: a task stolen inside the per-block steal sweep is dispatched before any further pop into the same variable, across callback invocations and after the sweep (R3e/R3f). Also: enqueue_task reports success only behind a blocking push or the success edge of a try_push (R3g). The queue re-size clause C01.R11 is evaluated on this component's queue instantiation (Q1). Also: the new-thread executor counts a task before its thread exists and un-counts it after it ran; join() returns only on an acquire observation of zero (R7)."
-          " Dependent clauses: the rules of the lower components (C01, C02, C08, C19) are re-evaluated on the function instances this component's own code reaches through resolved calls and reported as '<id>.D:<lower rule>' (DESIGN.md section 3, D1).",
+          " Dependent clauses: the rules of the lower components (C01, C02, C08, C19) are re-evaluated on the function instances this component's own code reaches through resolved calls (or, where the lower object is shared with this component's clients, on every instance present) and reported as '<id>.D:<lower rule>' (DESIGN.md section 3, D1)."
+          ' Also: leaving a RunnerScope restores the executor its constructor saved from current() (R1c).',
   "note": "Trusted: clang 14 CFG; std::thread; the bounded queue (C01/C02). Observation O4 (coroutine execute ignores a refused submit) is outside the quantifier and not armed.",
   "technique": "static analysis: scope-dominance, ordering, switch exhaustiveness over the enum's enumerators, edge-guard and who-may-call pairing rules over CFG facts"},
  "C16": {
@@ -173,7 +175,7 @@ CHECKS = {
           "that CAS succeeded, a failed roll-back retries the launch; the non-concurrent pop has one call site. The stranded-item window "
           "(publish after the last empty poll, before the counter reset) and launch failures are interleaving- and fault-dependent. "
           "Per-producer order and exclusivity of the consume function at run time are not decided. Also: join() returns only on a zero counter, the consumer feeds the installed function, initialize installs executor and function on every path (R2d-f); the queue's re-size clause C01.R11 on this instantiation (Q1)."
-          " Dependent clauses: the rules of the lower components (C01, C02) are re-evaluated on the function instances this component's own code reaches through resolved calls and reported as '<id>.D:<lower rule>' (DESIGN.md section 3, D1).",
+          " Dependent clauses: the rules of the lower components (C01, C02) are re-evaluated on the function instances this component's own code reaches through resolved calls (or, where the lower object is shared with this component's clients, on every instance present) and reported as '<id>.D:<lower rule>' (DESIGN.md section 3, D1).",
   "note": "Trusted: clang 14 CFG; Executor::submit semantics (0 = accepted).",
   "technique": "static analysis: reaching-definitions + must-pass-through, edge-guard and memory-order rules over CFG facts"},
  "C15": {
@@ -185,7 +187,7 @@ CHECKS = {
           "seeing the waiter bit, installs observed+2^16; the waker's threshold is 2^16 and wake_all is unavoidable when a sleeper is "
           "seen; clear resets every slot word and the index. The consumer-registers-while-publisher-wakes window is never staged by the "
           "tests and a missed wake-up is a hang. Order across blocks and consumer termination are not decided. Also: CLOSED ends the per-block slot walk for all following blocks, and the range handed out is (cursor before the advance, count) over the window [cursor, cursor+num) (R3f/R3g)."
-          " Also: publish / publish_n without a CONCURRENT argument forward true, flagged ones hand the flag down (R7). Dependent clauses: the rules of the lower components (C04) are re-evaluated on the function instances this component's own code reaches through resolved calls and reported as '<id>.D:<lower rule>' (DESIGN.md section 3, D1).",
+          " Also: publish / publish_n without a CONCURRENT argument forward true, flagged ones hand the flag down (R7). Dependent clauses: the rules of the lower components (C04) are re-evaluated on the function instances this component's own code reaches through resolved calls (or, where the lower object is shared with this component's clients, on every instance present) and reported as '<id>.D:<lower rule>' (DESIGN.md section 3, D1).",
   "note": "Trusted: clang 14 CFG; kernel futex; ConcurrentVector snapshot/for_each block iteration (C04).",
   "technique": "static analysis: fence-between / ordering / edge-guard / range-agreement rules over inlined CFG facts"},
  "C19": {
@@ -197,7 +199,7 @@ CHECKS = {
           "version, readers skip stale slots; the adder does a plain read-add-write on its own slot and reset zeroes all; move members "
           "transfer every field. Slot recycling across generations of threads / instances needs long create-destroy histories the tests do "
           "not produce. Exactness of sums under concurrent readers is not decided. Also: reset() of the aggregates walks every slot ever used, like value() (R3a). Also: the summer's sample is (value,1) through the pair overload and the pair update is one 128-bit own-slot = own-slot + argument (R5c/R5d). Also: value, bound and live-id enumeration of one thread-id flavour use the same allocator instance (R3c)."
-          " Dependent clauses: the rules of the lower components (C04, C14) are re-evaluated on the function instances this component's own code reaches through resolved calls and reported as '<id>.D:<lower rule>' (DESIGN.md section 3, D1).",
+          " Dependent clauses: the rules of the lower components (C04, C14) are re-evaluated on the function instances this component's own code reaches through resolved calls (or, where the lower object is shared with this component's clients, on every instance present) and reported as '<id>.D:<lower rule>' (DESIGN.md section 3, D1).",
   "note": "Trusted: clang 14 CFG; ConcurrentVector (C04) and IdAllocator (C14).",
   "technique": "static analysis: ordering/dominance, resolved-callee (who sums over what), edge-guard and special-member completeness rules over CFG facts"},
  "C20": {
@@ -210,7 +212,7 @@ CHECKS = {
           "tests, close pushes it before join, the destructor closes. Page conservation across the asynchronous hand-off is a property of "
           "all interleavings and of entry lengths no test enumerates. The inline/page-table boundary arithmetic, per-thread order in the "
           "file and partial writev are not decided; observation O1 (close()'s sleeping push vs. the non-waking consumer) is printed as a NOTE. Also: begin() resets every field the streaming methods write, end() syncs, and a file's destination index is the position its destination is appended at (R2i/R2j/R4d). The queue re-size clause C01.R11 is evaluated on this component's queue instantiation (Q1)."
-          " Also: every begin() of the asynchronous stream's buffer is preceded by binding the buffer to the appender's current page allocator (R2k). Dependent clauses: the rules of the lower components (C01, C02, C17) are re-evaluated on the function instances this component's own code reaches through resolved calls and reported as '<id>.D:<lower rule>' (DESIGN.md section 3, D1).",
+          " Also: every begin() of the asynchronous stream's buffer is preceded by binding the buffer to the appender's current page allocator (R2k). Dependent clauses: the rules of the lower components (C01, C02, C17) are re-evaluated on the function instances this component's own code reaches through resolved calls (or, where the lower object is shared with this component's clients, on every instance present) and reported as '<id>.D:<lower rule>' (DESIGN.md section 3, D1).",
   "note": "Trusted: clang 14 CFG; writev/FileObject opaque; PageAllocator opaque; the appender queue (C01/C02).",
   "technique": "static analysis: resource-flow, must-pass-through, exactly-once linking and ordering rules over CFG facts"},
  "C11": {
@@ -261,7 +263,7 @@ CHECKS = {
           "behind the releasing seal CAS, ready() acquires, bind counts before and rolls back exactly on a lost CAS; every field a run "
           "writes is reset. The orderings of activate/condition-ready/target-ready are produced by the scheduler, never by the tests. The "
           "value-level correctness of the +1/+2 protocol over all orderings and equality with a reference evaluation are not decided. Also: reset() restores every run-written field on every path (R6c)."
-          " Also: every store to GraphDependency::_ready that is not constant false is a conjunction with, or sits behind the true edge of, established() / check_established() (R7). Dependent clauses: the rules of the lower components (C08) are re-evaluated on the function instances this component's own code reaches through resolved calls and reported as '<id>.D:<lower rule>' (DESIGN.md section 3, D1).",
+          " Also: every store to GraphDependency::_ready that is not constant false is a conjunction with, or sits behind the true edge of, established() / check_established() (R7). Dependent clauses: the rules of the lower components (C08) are re-evaluated on the function instances this component's own code reaches through resolved calls (or, where the lower object is shared with this component's clients, on every instance present) and reported as '<id>.D:<lower rule>' (DESIGN.md section 3, D1).",
   "note": "Trusted: clang 14 CFG; GraphExecutor::run and processors are virtual/opaque; builder-time configuration is outside the rules.",
   "technique": "static analysis: flow-sensitive edge-guard (equality on RMW results), exactly-once counting, who-may-call and reset-completeness rules over CFG facts"},
 }
